@@ -84,7 +84,10 @@ def sym_checks(ctx, name, obj, vl, vt, freq, cj, tol, periodic_tol=None, shapes=
             if max(np.abs(rs[k] - r[k]).max() for k in KEYS) > tol * scale:
                 ctx.violate("side-drilled hole: values depend on more than the difference of the angles", cj, {"kind": "difference_only", "scatterer": name})
         # subsets of keys
-        for sub in ([["LL"], ["LT", "TL"], ["TT", "LL", "TL"]] if shapes else [["LT"]]):
+        # every non-empty subset of the four keys on the first shape, three subsets on the others
+        import itertools
+        all_subs = [list(c) for m_ in range(1, 5) for c in itertools.combinations(KEYS, m_)]
+        for sub in (all_subs if (sa, sb) == shape_list[0] else ([["LL"], ["LT", "TL"], ["TT", "LL", "TL"]] if shapes else [["LT"]])):
             rsub = obj(a, b, freq, to_compute=set(sub))
             if any(k not in rsub or not np.array_equal(np.asarray(rsub[k]), np.asarray(r[k])) for k in sub):
                 # optimised kernels may differ in rounding: allow 1e-12
